@@ -168,7 +168,7 @@ theorem Inv.onIncomingMessage {s : St} (h : Inv s) {c : Nat} {k : Conn} (hk : s.
   | util known replyFail =>
     simp only
     cases known with
-    | false => exact ⟨h.emit _, fresh_of_conns_eq hfresh rfl⟩
+    | false => exact h.hsReject hk hst
     | true =>
       simp only [if_true]
       cases replyFail with
@@ -177,7 +177,7 @@ theorem Inv.onIncomingMessage {s : St} (h : Inv s) {c : Nat} {k : Conn} (hk : s.
         simp only [if_true]
         exact ⟨(h.emit _).connDisconnect c none false,
           fresh_connDisconnect_self (s := s.emit .utility) hk hst none false⟩
-  | unhashable x => exact ⟨h.emit _, fresh_of_conns_eq hfresh rfl⟩
+  | unhashable x => exact h.hsReject hk hst
   | addr a =>
     simp only
     by_cases ha : a ∈ s.nodes
